@@ -26,7 +26,14 @@ def make_seeded_intervals(
     max_length = min(max_length, n)
     n_lengths = int(np.ceil(np.log(max_length / min_length) / np.log(growth_factor)))
     n_lengths = max(n_lengths, 1)  # At least the minimum length.
-    interval_lens = np.unique(np.round(np.geomspace(min_length, max_length, n_lengths)))
+    if n_lengths - 1 >= (2 * max_length + 1) * np.log(max_length / min_length):
+        # The steps of the geometric grid are all below 1/2, so rounding it gives every
+        # integer length. Avoids allocating a huge grid for `growth_factor` close to 1.
+        interval_lens = np.arange(min_length, max_length + 1).astype(np.float64)
+    else:
+        interval_lens = np.unique(
+            np.round(np.geomspace(min_length, max_length, n_lengths))
+        )
     for interval_len in interval_lens:
         step = max(1, np.round(step_factor * interval_len))
         n_steps = int(np.ceil((n - interval_len) / step))
